@@ -186,7 +186,7 @@ func convPayingSkeleton(w *World, exs []excursion) string {
 func checkC04(w *World, r *Report) {
 	r.Explanation = "Decides: (RD-DIR) every Dec→Int conversion in the module is classified by its operator skeleton — division by a price (paying→selling: a quantity given to a bidder) must round FLOOR, multiplication by a price (selling→paying: an amount charged) must round CEIL or be a difference of two ceilings, a weight share must round FLOOR — using an operator table over the resolved cosmossdk.io/math callees (Mul with an integer-valued operand and MulInt are exact at 18 decimals; Quo/Mul of two non-integers round to nearest; QuoTruncate/MulTruncate/TruncateInt floor; Ceil ceils); (RD-SIB) the two ceilings of the modification difference and the reservation rebuilt at settlement have exactly the operator skeleton of the bid's own to-paying conversion, so charged differences telescope to the ceiling of the final terms; (UNI-PRICE) in the matching routine the multiplier of every payment and the divisor of every quantity is the one match-price parameter, which is also what the result publishes; (INCL-GUARD) evaluating the routine with 'level price < match price' makes every accumulation unreachable; (REFUND-PROV) the refund stored for a matched bidder is reservation[bidder] − payment[bidder] with the reservation accumulated by the to-paying conversion over the auction's complete bid list, and bidders without a match get the whole reservation."
 	r.NotDecided = "the tight bounds (< 1 unit per matched bid) and the lower bound price×quantity as numbers; non-terminating ratios."
-	r.Rule("RD-DIR", "rounding direction per role", 5)
+	r.Rule("RD-DIR", "rounding direction per role", 3)
 	r.Rule("RD-SIB", "sibling excursions share their operator skeleton", 1)
 	r.Rule("UNI-PRICE", "one match price for payment and quantity of every bid", 1)
 	r.Rule("INCL-GUARD", "levels below the match price are not matched", 2)
